@@ -1,6 +1,6 @@
 from functools import partial
 
-from . import p_search
+from . import p_hybrid, p_search
 
 REGISTRY = {
     "C01": partial(p_search.run, "C01"),
@@ -8,4 +8,7 @@ REGISTRY = {
     "C05": partial(p_search.run, "C05"),
     "C12": partial(p_search.run, "C12"),
     "C20": partial(p_search.run, "C20"),
+    "C06": partial(p_hybrid.run, "C06"),
+    "C07": partial(p_hybrid.run, "C07"),
+    "C08": partial(p_hybrid.run, "C08"),
 }
